@@ -3,7 +3,8 @@ import Pcore.Model.Dispatch
 import Pcore.Model.DispatchCtors
 import Pcore.Model.CtorNew
 import Pcore.Model.CtorCoerce
-/-! Driver ops for C16:  `call <lt> <ds> <args> <blk>`, `newm <recv> <args>` and `coerce <ty> <v>` (syntax in harness/c16/c16.go).  The general
+import Pcore.Model.CtorInit
+/-! Driver ops for C16:  `call <lt> <ds> <args> <blk>`, `newm <recv> <args>`, `coerce <ty> <v>`, `initinst <recv> <v>` and `initasg (init ty v*) <ty>` (syntax in harness/c16/c16.go).  The general
     `new` op is implementation-only. -/
 namespace C16
 open Sx Pcore.Dispatch Pcore.Dispatch.Alpha
@@ -170,6 +171,21 @@ def exec : List Sexp → String
       | some (.reported c) => "reported " ++ c
       | some .fault => "fault"
     | _, _ => "bad-op"
+  | [.atom "initinst", r, v] =>
+    match recvTyOf r, valOf v with
+    | some recv, some x =>
+      match initIsInstance (fun cs => Pcore.Syntax.parseFloat cs) recv x with
+      | .ok b => boolStr b
+      | .error "UNMODELLED" => "bad-op"
+      | .error c => "reported " ++ c
+    | _, _ => "bad-op"
+  | [.atom "initasg", .list (.atom "init" :: t :: ia), o] =>
+    match tyOf [] 0 t, ia.mapM valOf, tyOf [] 0 o with
+    | some ty, some ias, some oty =>
+      match initIsAssignable (fun cs => Pcore.Syntax.parseFloat cs) ty ias oty with
+      | .ok b => boolStr b
+      | .error c => "reported " ++ c
+    | _, _, _ => "bad-op"
   | [.atom "coerce", t, v] =>
     match tyOf [] 0 t, valOf v with
     | some ty, some x =>
